@@ -1,6 +1,6 @@
 (** C15 -- script arguments, functions, source, exit statuses. Statements only. *)
 From Cicada Require Import Base.Chars Base.Peg Gen.LocustGrammar Model.Script Model.ScriptAst Model.Args Model.ShellScript
-  Proofs.ArgsProofs Proofs.SetEProofs Proofs.ScriptProofs Proofs.ShellProofs Proofs.ShellCallsProofs Proofs.ShellFlagProofs Proofs.LocustParse Proofs.ShellTextProofs Proofs.ShellSourceProofs Proofs.LocustIndent Proofs.ShellIndentProofs Proofs.ShellRefEqProofs.
+  Proofs.ArgsProofs Proofs.SetEProofs Proofs.ScriptProofs Proofs.ShellProofs Proofs.ShellCallsProofs Proofs.ShellFlagProofs Proofs.LocustParse Proofs.ShellTextProofs Proofs.ShellSourceProofs Proofs.LocustIndent Proofs.ShellIndentProofs Proofs.ShellRefEqProofs Proofs.ShellAndOrProofs Proofs.ShellRef3EqProofs.
 From Coq Require Import ZArith String Ascii.
 
 Definition S2 (s : string) : str := map N_of_ascii (list_ascii_of_string s).
@@ -794,6 +794,72 @@ Theorem C15_refl_is_upto_fail : forall ext rt fuel ls cmds, unfold rt fuel ls = 
   refl ext rt fuel ls true 0%Z = Some (true, upto_fail ext cmds, fail_status ext cmds).
 Proof. exact refl_is_upto_fail. Qed.
 
+(** 3l. AND-OR LINES (round 9d; Proofs/ShellAndOrProofs.v): a line may be ANY and-or list (`f && x`, `f || x`,
+    `a ; b`) -- no single_pipe hypothesis; bodies enter through [tab_okw] (wf_line lines only). Reference: a
+    line is run by the SAME and-or loop of the C03 list model (run_line_of = run_command_line of
+    Model/ListExec.v) over the reference pipeline runner [rpipe ext rt fuel] on the reference state
+    Some (flag, commands executed) (None = out of fuel / `source`): `set -e` sets the flag, an external command
+    is appended and returns [ext t], a call runs [alines] on the body from the current state; [alines] runs the
+    lines in order and, after EACH LINE, ends the list when the flag is on and the status of the LAST pipeline
+    executed in that line is not 0 (a line that executed nothing leaves the previous status) -- so `fail || x`
+    and `fail ; ok` do not end the script, `f && x` with f failing does. The statement is per line, as the
+    code is. C15_sete_andor_trace: from ANY flag, for every table / text / call depth, run_lines of the model has
+    the reference's log, flag and status. (run_line_of_sim: the and-or loop preserves any simulation between
+    two pipeline runners -- generic in both worlds.) *)
+Theorem C15_sete_andor_trace : forall ext file_text n ft rt, tab_okw ft rt ->
+  forall fuel text lines w e' tr st,
+  flat_parsed text lines -> forallb wf_line lines = true -> s_funcs w = ft ->
+  alines (rpipe ext rt fuel) lines (Some (s_eoe w, [])) 0%Z = (Some (e', tr), st) ->
+  exists sts,
+    run_lines shs (exec_line ext file_text n fuel) no_words no_setvar s_eoe n text w =
+      Some (Done (mk_shs e' ft (s_log w ++ tr)) sts false false)
+    /\ script_status sts = st.
+Proof. exact andor_trace_lines. Qed.
+
+Definition ao_body : str := S2 "  in_f
+  fail7 || in_rec
+  fail7
+  f_notreached
+".
+Definition ao_main : str := S2 "fail7 && skipped
+set -e
+fail7 || recovered
+fail7 ; ok
+f || after_f
+f && notrun
+notreached
+".
+Definition ao_lines : list str :=
+  [S2 "fail7 && skipped"; S2 "set -e"; S2 "fail7 || recovered"; S2 "fail7 ; ok"; S2 "f || after_f"; S2 "f && notrun"; S2 "notreached"].
+Definition ao_blines : list str := [S2 "in_f"; S2 "fail7 || in_rec"; S2 "fail7"; S2 "f_notreached"].
+Definition ao_trace : list str :=
+  [S2 "fail7"; S2 "fail7"; S2 "recovered"; S2 "fail7"; S2 "ok";
+   S2 "in_f"; S2 "fail7"; S2 "in_rec"; S2 "fail7"; S2 "after_f";
+   S2 "in_f"; S2 "fail7"; S2 "in_rec"; S2 "fail7"].
+Example C15_sete_andor_trace_nonvacuous :
+  exists sts,
+    run_lines shs (exec_line fs_ext (fun _ => None) 8 3) no_words no_setvar s_eoe 8 ao_main
+      (mk_shs false [(S2 "f", ao_body)] []) =
+      Some (Done (mk_shs true [(S2 "f", ao_body)] ao_trace) sts false false)
+    /\ script_status sts = 7%Z.
+Proof.
+  assert (Ht : tab_okw [(S2 "f", ao_body)] [(S2 "f", ao_blines)]).
+  { apply tabw_cons; [prove_flat_parsed | vm_compute; reflexivity | apply tabw_nil]. }
+  apply (C15_sete_andor_trace fs_ext (fun _ => None) 8 _ _ Ht 3 ao_main ao_lines
+           (mk_shs false [(S2 "f", ao_body)] []) true ao_trace 7%Z).
+  - prove_flat_parsed.
+  - vm_compute. reflexivity.
+  - reflexivity.
+  - vm_compute. reflexivity.
+Qed.
+
+(** 3m. Without `source` lines the reference with the function table as state (3i) is the flag-state reference
+    (3g), with the table unchanged -- for any file table (round 9d; Proofs/ShellRef3EqProofs.v). *)
+Theorem C15_refl3_is_refl : forall ext rfiles rt fuel ls e last e' tr st,
+  refl ext rt fuel ls e last = Some (e', tr, st) ->
+  refl3 ext rfiles fuel ls e rt last = Some (e', rt, tr, st).
+Proof. exact refl3_refl. Qed.
+
 (** The property, in full, and its refutation on the faithful model (what is left: a token
     holding a newline is not expanded -- first clause, stated for ALL tokens). *)
 Definition C15_full : Prop :=
@@ -870,6 +936,9 @@ Print Assumptions C15_sete_rest_of_body.
 Print Assumptions C15_sete_calls_trace.
 Print Assumptions C15_sete_calls_script.
 Print Assumptions C15_first_failure.
+Print Assumptions C15_refl3_is_refl.
+Print Assumptions C15_sete_andor_trace.
+Print Assumptions C15_sete_andor_trace_nonvacuous.
 Print Assumptions C15_refl_is_upto_fail.
 Print Assumptions C15_indented_text_parsed.
 Print Assumptions C15_tab_ok_indented.
